@@ -466,19 +466,33 @@ def node_expectations(T):
     }
 
 
-def canon_mean(e, T):
-    """LEN(APPEND(R, r)) == visited_times + 1 (list length and counter move together)."""
+def canon_mean(e, T, invariant=True):
+    """LEN(APPEND(R, r)) == visited_times + 1 (list length and counter move together); SUM(APPEND(R, r)) = SUM(R) + r;
+    and, by the inductive hypothesis on the pre-state, mean_reward == SUM(R)/visited_times - so an incremental
+    (running-mean) update is recognised as the same value as the batch mean."""
     Tn = T.sym("visited_times")
     R = T.sym("rewards")
     r = T.sym("reward")
-    return e.subs(SX.LEN(SX.APPEND(R, r)), Tn + 1).subs(SX.LEN(R), Tn)
+    e = sp.sympify(e).subs(SX.LEN(SX.APPEND(R, r)), Tn + 1).subs(SX.LEN(R), Tn)
+    e = e.replace(lambda x: getattr(x, "func", None) == SX.SUM and len(x.args) == 1 and getattr(x.args[0], "func", None) == SX.APPEND,
+                  lambda x: SX.SUM(x.args[0].args[0]) + x.args[0].args[1])
+    if invariant:
+        e = e.subs(T.sym("mean_reward"), SX.SUM(R) / Tn)
+    return e
 
 
-def check_node_classes(ctx):
+def base_case(e, T):
+    """The same expression on an empty history (no rewards yet, counter 0, stored mean 0)."""
+    Tn = T.sym("visited_times")
+    R = T.sym("rewards")
+    return canon_mean(e, T, invariant=False).subs(SX.SUM(R), 0).subs(Tn, 0).subs(T.sym("mean_reward"), 0)
+
+
+def check_node_classes(ctx, only=None):
     model = ctx.model
     n = 0
     for c in sorted(model.subclasses("P_node"), key=lambda c: c.name):
-        if "update_reward" not in c.methods:
+        if "update_reward" not in c.methods or (only is not None and c.name not in only):
             continue
         n += 1
         fn = c.methods["update_reward"]
@@ -511,6 +525,12 @@ def check_node_classes(ctx):
                                   "not updated on the path %s" % (p.conds or "(always)"), fn.lineno)
                     continue
                 eq, wit = SX.equivalent(canon_mean(got, T), canon_mean(want, T))
+                if eq is True and a == "mean_reward" and got.has(T.sym("mean_reward")):
+                    # incremental form: the induction also needs its base case (first reward of a cell)
+                    try:
+                        eq, wit = SX.equivalent(base_case(got, T), base_case(want, T))
+                    except Exception:
+                        eq, wit = None, None
                 ctx.ob("R04-NODE", eq is True, c.file, qual, "self.%s after update_reward" % a,
                        "== %s" % want if eq is True else "is %s, expected %s%s" % (got, want, " (they differ e.g. at %s)" % wit if wit else ""),
                        fn.lineno)
@@ -526,7 +546,7 @@ def check_node_classes(ctx):
             ok = len(mv) == 1 and isinstance(mv[0].value, ast.Constant) and abs(float(mv[0].value.value) - 1e-3) < 1e-15
             ctx.ob("R04-NODE", ok, c.file, "VHCT_node.__init__", "variance floor", "minvariance = 1e-3" if ok else
                    "the variance floor is not the documented 1e-3", init.lineno)
-    ctx.count("R04-NODE cell classes with update_reward", n, 9)
+    ctx.count("R04-NODE cell classes with update_reward", n, 9 if only is None else len(only))
 
 
 # ---------------------------------------------------------------------------
